@@ -106,6 +106,7 @@ func checkC15(c *Ctx) {
 	lbOvfMode = true
 	twoPass := "second pass of a two-pass parse: the first loop walked the same slice from the same start with the same length arithmetic, rejected every inconsistent length and counted the entries; the second loop repeats exactly that many steps (a relation between two loops, outside the per-site prover)"
 	st := bidx(c, "B-IDX", parsers, map[string]string{
+		"B-IDX|(*gmtls.certificateMsg).unmarshal|@second-pass":                                                                                                                      twoPass,
 		"B-IDX|(*gmtls.certificateMsg).unmarshal|index ?phi1[0] #2":                                                                                                                 twoPass,
 		"B-IDX|(*gmtls.certificateMsg).unmarshal|index ?phi1[1] #2":                                                                                                                 twoPass,
 		"B-IDX|(*gmtls.certificateMsg).unmarshal|index ?phi1[2] #2":                                                                                                                 twoPass,
